@@ -389,6 +389,9 @@ func c20Case(r *obs.Run, i int) {
 				fail("accepted-rejected", fmt.Sprintf("SetExons rejected a valid exon set %v: %v", cut, err))
 				return
 			}
+			for k := range in { // the argument slice stays the caller's: overwriting it afterwards changes nothing
+				in[k] = gene.Exon{Transcript: other, Offset: -77, Length: 1, Desc: "overwritten by the caller"}
+			}
 			model = cut
 			if len(cut) > maxEx {
 				maxEx = len(cut)
@@ -418,8 +421,11 @@ func c20Case(r *obs.Run, i int) {
 				} else {
 					in[rng.Intn(len(in))].Transcript = other
 				}
-			default: // no zero start
+			default: // no zero start: the whole set shifted right, or left (the first exon then starts below zero)
 				d := 1 + rng.Intn(20)
+				if rng.Intn(3) == 0 {
+					d = -d
+				}
 				for k := range in {
 					in[k].Offset += d
 				}
